@@ -58,7 +58,14 @@ def run_one(prop, tier, seed):
         repo = Repo()
         rep = Report(prop, tier, seed)
         level = mod.run(repo, rep, tier) or "other"
-        kw = getattr(mod, "FINISH_KW", {})
+        kw = dict(getattr(mod, "FINISH_KW", {}))
+        extra = {}
+        if tier == "thorough":
+            from . import thorough
+            rc2, extra = thorough.run(prop, repo, rep)
+            if rc2 == 2:
+                return 2
+        kw["extra_cov"] = dict(kw.get("extra_cov") or {}, **extra)
         return finish(rep, level=level, **kw)
     except AnalysisError as e:
         print("ANALYSIS-ERROR property=%s %s" % (prop, e))
